@@ -47,7 +47,7 @@ DSTU = [("dstu163", "1.2.804.2.1.1.1.1.3.1.1.1.2.0"), ("dstu167", "1.2.804.2.1.1
 
 CFUNC = {"addLD": "ec2AddLD", "subLD": "ec2SubLD", "addALD": "ec2AddALD", "subALD": "ec2SubALD", "addAA": "ec2AddAA", "subAA": "ec2SubAA",
          "negLD": "ec2NegLD", "dblLD": "ec2DblLD", "dblALD": "ec2DblALD", "negA": "ec2NegA", "fromAtoA": "ec2FromALD/ec2ToALD"}
-BIG_N = 300
+BIG_N = 100          # curves with more points run in the release builds (rel, w32) with two complete scalar sweeps
 
 
 def le_hex(v, no):
